@@ -39,7 +39,7 @@
 EXTENDS Naturals, Sequences, FiniteSets, TLC, Json
 
 CONSTANTS Deviations,
-          UNIVERSE,       \* which bounded space Init enumerates: "core", "lists", "full", "tri" ("none": no initial state, for modules that set c themselves)
+          UNIVERSE,       \* which bounded space Init enumerates: "core", "lists", "bs", "full", "tri" ("none": no initial state, for modules that set c themselves)
           SHARD, NSHARDS  \* Init takes the cases whose index is SHARD modulo NSHARDS (TLC computes initial states on one thread)
 
 VARIABLE c                \* the case
@@ -48,9 +48,11 @@ vars == <<c>>
 \* ------------------------------------------------------------------ names and clause tokens
 HostN == "h"
 SessN == <<"0", "1", "2", "3">>                    \* "3" only exists in routing histories with four sessions
-UserN == <<"a", "b">>
+\* in the universe "bs" the second user name is  a\  (it contains a backslash: clauses with an ESCAPED backslash in front of a wildcard / comma)
+SecondName == IF UNIVERSE = "bs" THEN "a\\" ELSE "b"
+UserN == <<"a", SecondName>>
 KidNames(d) == IF d = 0 THEN <<HostN>> ELSE IF d = 1 THEN SessN ELSE UserN     \* possible names of the children of a node at depth d, in creation order
-AllNames == {"h", "0", "1", "2", "3", "a", "b"}
+AllNames == {"h", "0", "1", "2", "3", "a", "b", "a\\"}
 
 \* the strings a clause matches, among the names above
 MatchSet(t) == CASE t = "*"     -> AllNames
@@ -66,19 +68,22 @@ MatchSet(t) == CASE t = "*"     -> AllNames
                  [] t = "a"     -> {"a"}
                  [] t = "b"     -> {"b"}
                  [] t = "\\a"   -> {"a"}
-                 [] t = "?"     -> AllNames
+                 [] t = "?"     -> AllNames \ {"a\\"}                     \* one character
+                 [] t = "a\\\\"  -> {"a\\"}                                \* a, escaped backslash: the literal name a\
+                 [] t = "a\\\\*" -> {"a\\"}                                \* a, escaped backslash, REAL star
+                 [] t = "x\\\\,a" -> {"a"}                                   \* a list: x\ and a (the comma is not escaped)
                  [] t = "(a|c)" -> {"a"}
                  [] t = "b,a"   -> {"a", "b"}
                  [] t = "a,c"   -> {"a"}
                  [] t = "b,c"   -> {"b"}
                  [] t = "b,\\a" -> {"a", "b"}
                  [] t = "~a"    -> AllNames \ {"a"}
-Tokens == {"*", "h", "0", "1", "2", "3", "1,0", "2,1", "a,c", "b,c", "<0-1>", "~0", "a", "b", "\\a", "?", "(a|c)", "b,a", "b,\\a", "~a"}
+Tokens == {"a\\\\", "a\\\\*", "x\\\\,a", "*", "h", "0", "1", "2", "3", "1,0", "2,1", "a,c", "b,c", "<0-1>", "~0", "a", "b", "\\a", "?", "(a|c)", "b,a", "b,\\a", "~a"}
 ClMatch(t, n) == n \in MatchSet(t)
 \* "U" IsPatternUnique, "L" IsPatternListOfUniqueValues, "W" anything else ("*" is stored as a NULL matcher)
-Kind(t) == IF t \in {"h", "0", "1", "2", "3", "a", "b", "\\a"} THEN "U" ELSE IF t \in {"1,0", "2,1", "b,a", "b,\\a", "a,c", "b,c"} THEN "L" ELSE "W"
+Kind(t) == IF t \in {"h", "0", "1", "2", "3", "a", "b", "\\a", "a\\\\"} THEN "U" ELSE IF t \in {"1,0", "2,1", "b,a", "b,\\a", "a,c", "b,c", "x\\\\,a"} THEN "L" ELSE "W"
 \* the keys of the hash lookups: the items of the list, unescaped, in order
-Lits(t) == CASE t = "1,0" -> <<"1", "0">> [] t = "2,1" -> <<"2", "1">> [] t = "a,c" -> <<"a", "c">> [] t = "b,c" -> <<"b", "c">> [] t = "b,a" -> <<"b", "a">> [] t = "b,\\a" -> <<"b", "a">> [] t = "\\a" -> <<"a">> [] OTHER -> <<t>>
+Lits(t) == CASE t = "a\\\\" -> <<"a\\">> [] t = "x\\\\,a" -> <<"x\\", "a">> [] t = "1,0" -> <<"1", "0">> [] t = "2,1" -> <<"2", "1">> [] t = "a,c" -> <<"a", "c">> [] t = "b,c" -> <<"b", "c">> [] t = "b,a" -> <<"b", "a">> [] t = "b,\\a" -> <<"b", "a">> [] t = "\\a" -> <<"a">> [] OTHER -> <<t>>
 
 \* what the real StringMatcher answered about the tokens (rows [t, lvl, k, m] written by the harness) agrees with the table above, on the names of n sessions
 RowOK(r, n) == /\ r.t \in Tokens
@@ -218,10 +223,10 @@ StopOnce       == c.mode = "stop" => StopOn(c, Visit(c))
 
 \* ------------------------------------------------------------------ the bounded spaces (the harness enumerates the same ones: harness/route.cpp "trav")
 \* a session's subtree: code = 5 * K("a") + K("b"); K(x): 0 x absent, 1 x without children, 2 x/a, 3 x/b, 4 x/a and x/b
-KidSet(k) == CASE k = 2 -> {"a"} [] k = 3 -> {"b"} [] k = 4 -> {"a", "b"} [] OTHER -> {}
+KidSet(k) == CASE k = 2 -> {"a"} [] k = 3 -> {SecondName} [] k = 4 -> {"a", SecondName} [] OTHER -> {}
 Sub(s, x, k) == IF k = 0 THEN {} ELSE {<<HostN, s, x>>} \cup {<<HostN, s, x, y>> : y \in KidSet(k)}
 NodesOf(codes) == {<< >>, <<HostN>>} \cup {<<HostN, SessN[i]>> : i \in 1..3}
-                  \cup UNION {Sub(SessN[i], "a", codes[i] \div 5) \cup Sub(SessN[i], "b", codes[i] % 5) : i \in 1..3}
+                  \cup UNION {Sub(SessN[i], "a", codes[i] \div 5) \cup Sub(SessN[i], SecondName, codes[i] % 5) : i \in 1..3}
 SessIdx(s) == CASE s = "0" -> 0 [] s = "1" -> 1 [] s = "2" -> 2 [] s = "3" -> 3
 NumB(n) == Cardinality({i \in 3..Len(n) : n[i] = "b"})
 WhatOf(n, dv) == IF Len(n) <= 2 THEN 0 ELSE 1 + ((NumB(n) + SessIdx(n[2]) + dv) % 2)      \* the what-code the harness gives the node
@@ -240,12 +245,16 @@ Menu == << <<"*">>, <<"h">>,
               <<"h", "1,0", "a", "a">>, <<"*", "<0-1>", "(a|c)", "a">>, <<"*", "*", "a", "(a|c)">> >>
         \* 43..47: comma lists of literals with different items, so that several patterns of ONE depth are all-literal lists at one level
         \o << <<"*", "2,1">>, <<"*", "*", "a,c">>, <<"*", "*", "b,c">>, <<"*", "*", "a", "a,c">>, <<"*", "*", "a", "b,c">> >>
+        \* 48..52: an escaped backslash in front of a real wildcard / of a list comma
+        \o << <<"*", "*", "a\\\\*">>, <<"*", "*", "x\\\\,a">>, <<"*", "*", "a\\\\">>, <<"*", "*", "a", "a\\\\*">>, <<"*", "0", "a\\\\*">> >>
 CoreMenu == <<1, 3, 4, 7, 9, 10, 13, 16, 21, 23, 27, 29, 32>>
+BsMenu == <<48, 49, 50, 7, 51, 52>>
 ListMenu == <<5, 43, 44, 45, 13, 46, 47>>            \* every pattern has a list clause; sequences of 1-3 of them, each item of a list naming (at most) another session's node
 Seq25 == [i \in 1..25 |-> i - 1]
 U == CASE UNIVERSE = "core" -> [codes |-> <<Seq25, <<0, 1, 5, 6>>, <<0>>>>, menu |-> CoreMenu, maxp |-> 2]
        [] UNIVERSE = "full" -> [codes |-> <<Seq25, Seq25, <<0>>>>, menu |-> [i \in 1..Len(Menu) |-> i], maxp |-> 2]
        [] UNIVERSE = "lists" -> [codes |-> <<<<5, 21>>, <<1, 21>>, <<1, 5>>>>, menu |-> ListMenu, maxp |-> 3]
+       [] UNIVERSE = "bs"    -> [codes |-> <<<<1, 6, 21>>, <<0, 6>>, <<0>>>>, menu |-> BsMenu, maxp |-> 2]
        [] UNIVERSE = "tri"  -> [codes |-> <<Seq25, <<0, 1, 5, 6>>, <<0, 1, 5, 6>>>>, menu |-> CoreMenu, maxp |-> 3]
        [] OTHER -> [codes |-> <<<<0>>, <<0>>, <<0>>>>, menu |-> <<1>>, maxp |-> 0]
 NM == Len(U.menu)
